@@ -1,7 +1,7 @@
 ---------------------------- MODULE Trace_Types ----------------------------
 (* Validation of observations recorded from the real type-hint adapter (code -> spec), C02 and C10.       *)
 (* TRACE_FILE holds [obs |-> << ... >>]; an observation is one of                                         *)
-(*   [kind |-> "parse", t, d, x, ok, v]     one parse of one key of type t (default d) with input x through *)
+(*   [kind |-> "parse", t, d, clash, x, ok, v]   one parse of one key of type t (default d) with input x through *)
 (*        parse_object({key: x}) or parse_args(["--key=" + text]): accepted?, and the resulting value;    *)
 (*   [kind |-> "fix", t, d, absent, norm, x, first, vok, sok, second, draised, rok, dsame, ser, ser2,      *)
 (*    jdraised, jrok, jdsame, jser, jser2]   `first` is the accepted result for input x (a value, or a    *)
@@ -31,10 +31,12 @@ V(j) == CASE j.k \in {"list", "tuple"} -> [k |-> j.k, v |-> [n \in 1..Len(j.v) |
           [] j.k = "float" -> FloatV(j.v[1], j.v[2])
           [] j.k = "enum" -> EnumV(j.v[1], j.v[2])
           [] j.k = "file" -> FileV(j.v[1], V(j.v[2]))
+          [] j.k = "ns"   -> [k |-> "ns", v |-> [n \in 1..Len(j.v) |-> <<V(j.v[n][1]), V(j.v[n][2])>>]]     \* a Namespace (opaque values)
           [] OTHER -> j
 RECURSIVE T(_)
 T(j) == CASE j.k = "literal" -> LitT([n \in 1..Len(j.v) |-> V(j.v[n])])
           [] j.k = "enum" -> EnumT(j.v[1].v)
+          [] j.k \in {"rstr", "rnum", "reg"} -> [k |-> j.k, v |-> NameOf(j.v[1].v)]
           [] OTHER -> [k |-> j.k, v |-> [n \in 1..Len(j.v) |-> T(j.v[n])]]
 
 VARIABLE i
@@ -45,6 +47,7 @@ Say(kind, idx, clause) == PrintT(<<"R", kind, idx, clause>>)
 DevStr(d) == (IF "excLeak" \in d THEN "+excLeak" ELSE "") \o (IF "origNested" \in d THEN "+origNested" ELSE "")
              \o (IF "inPlace" \in d THEN "+inPlace" ELSE "") \o (IF "setListing" \in d THEN "+setListing" ELSE "")
              \o (IF "validateLeak" \in d THEN "+validateLeak" ELSE "") \o (IF "rawDefault" \in d THEN "+rawDefault" ELSE "")
+             \o (IF "clashKey" \in d THEN "+clashKey" ELSE "")
              \o (IF "litEq" \in d THEN "+litEq" ELSE "") \o (IF "dictKey" \in d THEN "+dictKey" ELSE "")
              \o (IF "serCollision" \in d THEN "+serCollision" ELSE "") \o (IF "yamlFloatStr" \in d THEN "+yamlFloatStr" ELSE "")
              \o (IF "serLenient" \in d THEN "+serLenient" ELSE "") \o (IF "jsonKeyCollision" \in d THEN "+jsonKeyCollision" ELSE "") \o (IF "leftObject" \in d THEN "+leftObject" ELSE "") \o (IF "leftSet" \in d THEN "+leftSet" ELSE "")
@@ -55,7 +58,8 @@ CheckParse(n) ==
       ty  == T(o.t)
       inp == V(o.x)
       out == V(o.v)
-      a   == AlgParse(ty, inp, V(o.d))                                              \* d: the default of the argument
+      \* d: the default of the argument; clash: the argument is named like a Namespace method and the value came as an object
+      a   == IF o.clash THEN AlgParseClash(ty, inp, V(o.d)) ELSE AlgParse(ty, inp, V(o.d))
       refOK == o.ok = Accepts(ty, inp) /\ (o.ok => (Canon(out) \in {Canon(r) : r \in TopResults(ty, inp)} /\ ConformsTop(ty, out)))
       algOK == o.ok = a.ok /\ (o.ok => Canon(out) = Canon(a.v))
   IN /\ refOK \/ Say("parse", n, IF algOK /\ Devs(a) # {} THEN "ref/as-alg/" \o DevStr(Devs(a)) ELSE "ref/other/" \o DevStr(a.dev))
@@ -119,6 +123,13 @@ CheckFix(n) ==
           \/ Say("fix", n, IF "setListing" \in b.dev THEN "ref/second/as-alg/+setListing"       \* any order, any outcome
                            ELSE IF (b.dev \cup fd) # {} /\ b.ok = o.sok /\ (b.ok => Canon(b.v) = Canon(V(o.second))) THEN "ref/second/as-alg/" \o DevStr(b.dev \cup fd)
                            ELSE "ref/second/other")
+     \* ... and the same again on the SAME object after validate(cfg) and dump(cfg): dump must not touch the configuration
+     \* it is given, and the result is still a fixed point afterwards (values are normalised exactly once)
+     /\ Canon(V(o.after)) = Canon(fst) \/ Say("fix", n, "ref/after-dump")
+     /\ (o.tok /\ Canon(V(o.third)) = Canon(fst))
+          \/ Say("fix", n, IF "setListing" \in b.dev THEN "ref/third/as-alg/+setListing"
+                           ELSE IF (b.dev \cup fd) # {} /\ b.ok = o.tok /\ (b.ok => Canon(b.v) = Canon(V(o.third))) THEN "ref/third/as-alg/" \o DevStr(b.dev \cup fd)
+                           ELSE "ref/third/other")
      /\ (o.rok /\ o.dsame) \/ Say("fix", n, "ref/dump" \o why(o.draised, {"leftObject"}, {"jsonKeyCollision"}, o.rok, o.ser, o.ser2))
      /\ (o.jrok /\ o.jdsame) \/ Say("fix", n, "ref/dumpjson" \o why(o.jdraised, {"leftObject", "leftSet"}, {"yamlFloatStr"}, o.jrok, o.jser, o.jser2))
      /\ ("setListing" \in b.dev \/ ~(o.sok /\ Canon(V(o.second)) = Canon(fst)) \/ (b.ok /\ Canon(b.v) = Canon(fst)))
@@ -126,6 +137,20 @@ CheckFix(n) ==
      /\ (firstAsAlg \/ "setListing" \in a0.dev) \/ Say("fix", n, "alg/first")
      /\ ("setListing" \in s.dev \/ o.draised \/ (s.ok /\ SerMatch(s.v, V(o.ser)))) \/ Say("fix", n, "alg/ser")
 
-Check == IF Obs[i].kind = "parse" THEN CheckParse(i) ELSE CheckFix(i)
+\* kind "opq": a value whose type the Alg layer does not model (class-typed options: List[Base], Dict[str, List[Base]] with
+\* sub-class specs whose init_args hold Enum / timedelta / nested values -- Classes are C14's).  Only the laws themselves, on
+\* the recorded values: validate passes; second = first; after validate(cfg) and dump(cfg) on the same object cfg is unchanged
+\* and still a fixed point; the dumps re-parse and are byte-identical.
+CheckOpaque(n) ==
+  LET o == Obs[n]
+      fst == V(o.first)
+  IN /\ o.vok \/ Say("opq", n, "ref/validate")
+     /\ (o.sok /\ V(o.second) = fst) \/ Say("opq", n, "ref/second/other")
+     /\ V(o.after) = fst \/ Say("opq", n, "ref/after-dump")
+     /\ (o.tok /\ V(o.third) = fst) \/ Say("opq", n, "ref/third/other")
+     /\ (o.rok /\ o.dsame) \/ Say("opq", n, "ref/dump/other")
+     /\ (o.jrok /\ o.jdsame) \/ Say("opq", n, "ref/dumpjson/other")
+
+Check == IF Obs[i].kind = "parse" THEN CheckParse(i) ELSE IF Obs[i].kind = "opq" THEN CheckOpaque(i) ELSE CheckFix(i)
 Inv == Check \/ TRUE
 =============================================================================
